@@ -32,6 +32,7 @@ type Solver struct {
 	SatQ    int
 	UnsatQ  int
 	UnkQ    int
+	Fallbacks int
 	Time    time.Duration
 	Errors  []string
 	timeout int // ms
@@ -272,6 +273,11 @@ func (s *Solver) CheckModel(extra *Term, neg bool, vars []*Term) (SatResult, map
 	}
 	if len(s.Errors) > nerr {
 		r = Unknown
+	}
+	if r == Unknown && !s.dead && !noPortfolio {
+		// portfolio fallback: the other installed solvers decide the same standalone script
+		r, model = s.portfolio(extra, neg, vars)
+		s.Fallbacks++
 	}
 	el := time.Since(start)
 	s.Time += el
